@@ -29,6 +29,41 @@ def update_arms(fn):
     return out
 
 
+def update_table(facts, upd):
+    """{variant: (kind, field, value text, unknown)} from the interpreter's paths of RunOptions::update; a catch-all path is
+    expanded to the variants no other path names."""
+    from .. import emit
+
+    it = emit.Interp(facts)
+    try:
+        res = it.run_fn(upd.key)
+    except Exception:
+        return None
+    out, rest = {}, None
+    allv = facts.variants("GlobalOption")
+    for st, v in res:
+        labs = [lab for subj, lab in st.conds if subj == "@0" and isinstance(lab, tuple)]
+        assigns = [e_ for e_ in st.effects if e_[0] == "assign"]
+        rv = st.ret if st.ret is not None else v
+        if isinstance(rv, dict) and rv.get("v") == "panic":
+            entry = ("panic", None, rv.get("macro"), list(st.unknown))
+        elif len(assigns) == 1 and len(st.effects) == 1:
+            entry = ("assign", assigns[0][1], emit.canon(assigns[0][2]), list(st.unknown))
+        else:
+            entry = ("other", None, "%d effects" % len(st.effects), list(st.unknown))
+        if not labs:
+            return None
+        for lab in labs[0]:
+            if lab == "_":
+                rest = entry
+            else:
+                out[lab.split("::")[-1]] = entry
+    if rest is not None:
+        for vn in allv:
+            out.setdefault(vn, rest)
+    return out
+
+
 def panics(body):
     return bool(find_all(body, lambda n: n.get("k") == "macro" and n["name"] in ("unreachable", "todo", "unimplemented", "panic")))
 
@@ -148,35 +183,26 @@ def run(c, facts, tier):
     # (the arm of atom that would build Expression::Global is then dead; C03.never-built re-checks it for the panic site)
 
     # ------------------------------------------------------------ C13.last-wins
-    arms = update_arms(upd)
-    if arms is None:
-        c.ob("C13.last-wins", upd.key, "update is one match on the option", None, "shape not recognised")
-        arms = []
+    # what update() does per option, by interpreting it: variant -> ('assign', field, value) | 'panic' | other
+    utab = update_table(facts, upd)
     handled = {}
-    for var, p, body, arm in arms:
-        if var is None:
+    if utab is None:
+        c.ob("C13.last-wins", upd.key, "update is a function of the option's variant", None, "update() could not be interpreted path by path")
+        utab = {}
+    for var, (kind, fld, val, unk) in sorted(utab.items()):
+        if kind == "panic":
             continue
-        bb = rx.peel(body)
-        ok = None
-        det = src(bb)
-        if bb["k"] == "assign" and bb["lhs"]["k"] == "field" and rx.is_var(bb["lhs"]["e"], "self"):
-            rhs = rx.peel(bb["rhs"])
-            binds = rx.pat_bindings(p)
-            if rhs["k"] == "lit":
-                # a flag option switches its flag on
-                ok = rhs.get("t") != "bool" or rhs["v"] is True
-            elif rhs["k"] == "call" and rx.path_str(rhs["f"]) == "Some" and len(rhs["args"]) == 1 and binds and rx.is_var(rhs["args"][0], binds[0]):
-                ok = True
-            elif binds and rx.is_var(rhs, binds[0]):
-                ok = True
-            else:
-                ok = False
-            handled[var] = bb["lhs"]["name"]
+        ok, det = None, "%s %s %s" % (kind, fld, val)
+        if unk:
+            ok, det = None, "constructs not understood: %s" % unk[:2]
+        elif kind == "assign":
+            # a flag option switches its flag on; a valued option stores its own value (possibly wrapped in Some)
+            ok = val in ("true",) or val == "$GlobalOption::%s.0" % var or val == "Some($GlobalOption::%s.0)" % var or (val.replace("$GlobalOption::%s.0" % var, "") in ("", "Some()") and "$GlobalOption::%s.0" % var in val)
+            det = "self.%s = %s — a plain assignment makes the last occurrence win" % (fld, val)
+            handled[var] = fld
         else:
-            ok = False if not panics(body) else None
-            if panics(body):
-                continue
-        c.ob("C13.last-wins", upd.key, "%s assigns (never merges)" % var, ok, "arm body `%s` — a plain assignment makes the last occurrence win" % det, witness="-threads 2 -threads 8" if ok is False else None)
+            ok = False
+        c.ob("C13.last-wins", upd.key, "%s assigns (never merges)" % var, ok, det, witness="-threads 2 -threads 8" if ok is False else None)
     # two different options must not write the same field with different meaning: informational
     # the options object that is updated (leading pass and token map) is the one returned, and it starts from the defaults
     upd_calls = find_all(infn.body, lambda n: n.get("k") == "mcall" and n["m"] == upd.name)
